@@ -35,6 +35,7 @@ func run(c *vf.Ctx) {
 	nameObligations(c, names, scopes)
 	packetObligations(c, names, scopes)
 	histories(c)
+	editedPacket(c)
 }
 
 // ------------------------------------------------------------------ lattices
@@ -664,4 +665,96 @@ func packetObligations(c *vf.Ctx, names []string, scopes [][]string) {
 	})
 	c.Sample("packet", pkts[len(pkts)/2].String())
 	c.Sample("packet", pkts[len(pkts)-1].String())
+}
+
+// editedPacket: ONE packet object edited between Marshal calls (a responder keeps the packet and patches names,
+// scopes, RDATA, id and flags for the next datagram): after every sequence of three edits, with Marshal called or
+// not after each of the first two, Marshal gives the bytes a fresh packet with the same content gives. The model is
+// the test's own description of the content (tpkt); both are edited in step.
+func editedPacket(c *vf.Ctx) {
+	type op struct {
+		name string
+		do   func(p *nbtns.NBTNSPacket, t *tpkt)
+	}
+	ops := []op{
+		{"add question FRED", func(p *nbtns.NBTNSPacket, t *tpkt) {
+			r := std("FRED", nil, 0, 0)
+			t.sec[0] = append(t.sec[0], r)
+			p.Questions = append(p.Questions, nbtns.NBTNSQuestion{Name: &nbtns.NetBIOSName{Name: r.name}, Type: r.typ, Class: r.class})
+			p.Header.Questions++
+		}},
+		{"add answer FRED.sc", func(p *nbtns.NBTNSPacket, t *tpkt) {
+			r := std("FRED", []string{"sc"}, 1, len(t.sec[1]))
+			t.sec[1] = append(t.sec[1], r)
+			p.Answers = append(p.Answers, nbtns.NBTNSResourceRecord{Name: &nbtns.NetBIOSName{Name: r.name, ScopeID: "sc"}, Type: r.typ, Class: r.class, TTL: r.ttl, RDLength: uint16(len(r.rdata)), RData: append([]byte{}, r.rdata...)})
+			p.Header.Answers++
+		}},
+		{"Questions[0].Name.Name=BARNEY", func(p *nbtns.NBTNSPacket, t *tpkt) {
+			if len(t.sec[0]) > 0 {
+				t.sec[0][0].name = "BARNEY"
+				p.Questions[0].Name.Name = "BARNEY"
+			}
+		}},
+		{"Questions[0].Name.ScopeID=corp", func(p *nbtns.NBTNSPacket, t *tpkt) {
+			if len(t.sec[0]) > 0 {
+				t.sec[0][0].scope = []string{"corp"}
+				p.Questions[0].Name.ScopeID = "corp"
+			}
+		}},
+		{"Answers[last].Name.ScopeID=\"\"", func(p *nbtns.NBTNSPacket, t *tpkt) {
+			if n := len(t.sec[1]); n > 0 {
+				t.sec[1][n-1].scope = nil
+				p.Answers[n-1].Name.ScopeID = ""
+			}
+		}},
+		{"Answers[last].RData[5]=9", func(p *nbtns.NBTNSPacket, t *tpkt) {
+			if n := len(t.sec[1]); n > 0 && len(t.sec[1][n-1].rdata) == 6 {
+				t.sec[1][n-1].rdata = append([]byte{}, t.sec[1][n-1].rdata...)
+				t.sec[1][n-1].rdata[5] = 9
+				p.Answers[n-1].RData[5] = 9
+			}
+		}},
+		{"Answers[0].TTL=1", func(p *nbtns.NBTNSPacket, t *tpkt) {
+			if len(t.sec[1]) > 0 {
+				t.sec[1][0].ttl = 1
+				p.Answers[0].TTL = 1
+			}
+		}},
+		{"Answers=nil", func(p *nbtns.NBTNSPacket, t *tpkt) { t.sec[1] = nil; p.Answers = nil; p.Header.Answers = 0 }},
+		{"TransactionID=0xBEEF", func(p *nbtns.NBTNSPacket, t *tpkt) { t.id = 0xBEEF; p.Header.TransactionID = 0xBEEF }},
+		{"Flags^=0x8000", func(p *nbtns.NBTNSPacket, t *tpkt) { t.flags ^= 0x8000; p.Header.Flags ^= 0x8000 }},
+	}
+	n := 0
+	for a := range ops {
+		for b := range ops {
+			for d := range ops {
+				for obs := 0; obs < 4; obs++ {
+					t := &tpkt{id: 0x0102, flags: 0x2910, sec: [4][]rec{{std("FIRST", []string{"sc"}, 0, 0)}, nil, nil, nil}}
+					p := t.lib()
+					var hist []string
+					var out, want []byte
+					var err, werr error
+					pn, msg, where := vf.Try(func() {
+						for i, o := range []op{ops[a], ops[b], ops[d]} {
+							o.do(p, t)
+							hist = append(hist, o.name)
+							if i < 2 && obs&(1<<i) != 0 {
+								p.Marshal()
+								hist = append(hist, "Marshal")
+							}
+						}
+						out, err = p.Marshal()
+						want, werr = t.lib().Marshal()
+					})
+					n++
+					c.Evals(1)
+					c.Case([]byte("nbns.edit"), []byte{byte(a), byte(b), byte(d), byte(obs)})
+					c.Check("C10/packet/history/edited-packet-encodes-like-a-fresh-packet-with-the-same-content", !pn && (err == nil) == (werr == nil) && bytes.Equal(out, want), func() string {
+						return fmt.Sprintf("one packet {id 0x0102, question FIRST.sc}, history %v, then Marshal() = %s (%v); a fresh packet with the content %s encodes as %s (%v) (panic=%v %s %s)", hist, vf.HexS(out), err, t, vf.HexS(want), werr, pn, msg, where)
+					})
+				}
+			}
+		}
+	}
+	c.Set("edited_packet_histories", n)
 }
